@@ -371,7 +371,17 @@ class Check(FormulaCheck):
             f = {'whole': unk, 'left': '%s+%s' % (unk, carrier), 'right': '(%s)*%s' % (carrier, unk), 'arg-first': 'SUM(%s,1,2)' % unk, 'arg-last': 'MAX(1,(%s),%s)' % (carrier, unk),
                  'array': '{1,%s,3}' % unk, 'nested': 'ABS(SUM(1,MAX(%s,2)))' % unk, 'uminus': '-%s' % unk, 'iferror': 'IFERROR(%s,0)' % unk, 'cmp': '%s=1' % unk,
                  'amp': '"a"&%s' % unk, 'deep': '((1+(2*(%s))))-(%s)' % (unk, carrier), 'paren': '(%s)' % unk, 'if-branch': 'IF(TRUE,1,%s)' % unk, 'iserror': 'ISERROR(%s)' % unk}[ctx]
-            r = self.parse(f)
+            handling = None
+            if rnd.random() < 0.15:
+                # the unknown name is met while the host is handling an error of the library (a fallback formula evaluated in an except block)
+                handling = rnd.choice(list(hx.error_objects().values()))
+                try:
+                    raise handling
+                except type(handling):
+                    r = self.parse(f)
+                rec.count('unknown_names_evaluated_while_an_error_is_being_handled')
+            else:
+                r = self.parse(f)
             tag = ''
             if what == 'variable' and re.match(r'[A-Za-z]+[0-9]+', nm):
                 tag = ':name-with-cell-shaped-prefix'
